@@ -149,6 +149,19 @@ def extract_jobs(Job, cfg=CFG_NDEBUG, tier="quick"):
             J("extract_files_basename", "h_basename", ["extract_files_basename"], cover=True)]
 
 
+HXC_GROUP = ["hxc_le_word", "hxc_le_quad", "hxc_read_and_verify_header", "hxc_get_track_metadata"]
+
+
+def hxc_jobs(Job, cfg=CFG_NDEBUG, tier="quick"):
+    def J(name, entry, enforce, **kw):
+        return Job("D_%s_%s" % (name, cfg[0]), "harness/dfs_hxcmfm.c", entry, enforce=enforce, defines=list(cfg[1]),
+                   extract=ext(HXC_GROUP), tier=tier, **kw)
+    return [J("hxc_le_word", "h_le_word", ["hxc_le_word"]), J("hxc_le_quad", "h_le_quad", ["hxc_le_quad"]),
+            J("hxc_header", "h_header", ["hxc_read_and_verify_header"], cover=True,
+              cbmc=["--unwindset", "bytes_copy7.0:8,memcmp.0:8", "--unwinding-assertions"]),
+            J("hxc_track_metadata", "h_track_metadata", ["hxc_get_track_metadata"], loops=True, cover=True)]
+
+
 DFS_TRUSTED = [
     "engine/cxx2c.py: the verified text is the function body extracted from /repo on every run; rules fired and SHA-256 of the source range are in coverage.jobs[].extracted",
     "models/dfs_model.h: DataAccess::read_block as a deterministic partial function with a call log; std::function visitors as monitored calls; "
